@@ -117,8 +117,11 @@ pub broadcast axiom fn axiom_encode_len(s: Seq<char>)
 /// `<&str as ToString>::to_string` (Display of a &str is the string itself)
 pub broadcast axiom fn axiom_refstr_to_string(t: &&str, res: String)
     ensures #[trigger] vstd::string::to_string_from_display_ensures::<&str>(t, res) <==> res@ == (*t)@;
+/// `char::to_string` (Display of a char is the one-character string)
+pub broadcast axiom fn axiom_char_to_string(t: &char, res: String)
+    ensures #[trigger] vstd::string::to_string_from_display_ensures::<char>(t, res) <==> res@ == seq![*t];
 pub broadcast group group_vx_axioms {
-    axiom_refstr_to_string, axiom_str_len_bound, axiom_chars_le_bytes, axiom_encode_len,
+    axiom_char_to_string, axiom_refstr_to_string, axiom_str_len_bound, axiom_chars_le_bytes, axiom_encode_len,
     axiom_uni_alphabetic_ascii, axiom_uni_numeric_ascii, axiom_uni_uppercase_ascii, axiom_uni_lowercase_ascii,
     axiom_string_eq_str, axiom_string_obeys_eq_str, axiom_string_eq_refstr, axiom_string_obeys_eq_refstr,
     axiom_str_eq_string, axiom_str_obeys_eq_string, axiom_refstr_eq_string, axiom_refstr_obeys_eq_string,
@@ -601,7 +604,7 @@ pub open spec fn is_ascii_chars_f(s: Seq<char>) -> bool { vstd::utf8::is_ascii_c
 /// `x.to_string()` of an f64 (shortest round-trip rendering, uninterpreted)
 pub uninterp spec fn fmt_shortest(x: f64) -> Seq<char>;
 #[verifier::external_body]
-pub fn f64_to_string(x: f64) -> (r: String) ensures r@ == fmt_shortest(x) { x.to_string() }
+pub fn f64_to_string(x: f64) -> (r: String) ensures r@ == fmt_shortest(x), is_ascii_chars_f(r@) { x.to_string() }
 /// f64 comparisons used by the amount checks (uninterpreted)
 pub uninterp spec fn f64_le_zero(x: f64) -> bool;
 #[verifier::external_body]
